@@ -16,7 +16,7 @@ import json
 from concurrent.futures import ThreadPoolExecutor
 
 from .common import *
-from .histlib import HistGen, run_scripts
+from .histlib import HistGen, run_scripts, block_join_history
 from .treelib import *
 
 
@@ -82,30 +82,32 @@ def main(run, args):
     # (filtered nodes) below, at and above the common ancestor with the committer; then members all
     # over the tree commit with a path and everybody, the joiners included, must follow
     for i in range(8 if quick else 60):
-        n = rng.choice([8, 9, 12, 16])
-        g = HistGen(rng, n_pool=n + 4, name=f"c09-block-{i}")
+        g, _ = block_join_history(rng, i, f"c09-block-{i}", quick)
+        scripts.append(g.script())
+    # directed: a member re-joins by an external commit that removes its old leaf and lands on an EARLIER
+    # blank leaf: the old leaf's direct path is blanked, and the other members must drop the keys they
+    # hold for those nodes (provisional_private_tree runs for external commits too)
+    for i in range(6 if quick else 40):
+        n = rng.choice([4, 5, 6, 8])
+        g = HistGen(rng, n_pool=n + 1, name=f"c09-rejoin-{i}")
         g.start()
-        g.round(app=False, n_props=0, by_value_adds=n - 1, by_value_removes=0, path_required=rng.chance(1, 2), echo=False)
-        order = list(g.in_group)                       # leaf k holds order[k]
-        if i % 2 == 0:
-            size = rng.choice([2, 2, 4])
-            starts = [b for b in range(0, n - size, size)]
-            b = rng.choice(starts)
-            block = list(range(b, b + size))
-            cidx = rng.choice([k for k in range(n) if k not in block])
-            g.round_explicit(order[cidx], n_adds=1 + rng.below(size - 1) if size > 2 else 1, remove_names=[order[k] for k in block], tree_ext=rng.chance(1, 2))
-        else:
-            # the committer's sibling leaf and the neighbouring pair go, one member comes: the joiner sits
-            # next to the committer and the blank pair is the copath of a node ABOVE their common ancestor
-            q = rng.below((n - 1) // 4 if (n - 1) // 4 > 0 else 1)
-            cidx = 4 * q + rng.below(2)
-            gone = [cidx ^ 1, 4 * q + 2, 4 * q + 3]
-            gone = [k for k in gone if k < n]
-            g.round_explicit(order[cidx], n_adds=1, remove_names=[order[k] for k in gone], tree_ext=rng.chance(1, 2))
-        for _ in range(3 if quick else 5):
-            g.round_explicit(rng.choice(g.in_group), n_adds=0, remove_names=[])
-        # the member on the far right and a joiner commit too
-        g.round_explicit(g.in_group[-1], n_adds=0, remove_names=[])
+        g.round(app=False, n_props=0, by_value_adds=n - 1, by_value_removes=0, path_required=True, echo=False)
+        order = list(g.in_group)
+        mover = order[rng.choice(list(range(n // 2, n)))]             # somebody in the right half
+        g.round_explicit(mover, n_adds=0, remove_names=[])             # the others learn keys of its path
+        victim = order[rng.below(n // 2)]                              # an early leaf becomes blank
+        g.round_explicit(rng.choice([m for m in g.in_group if m not in (victim, mover)]), n_adds=0, remove_names=[victim])
+        w = rng.choice([m for m in g.in_group if m != mover])
+        gi = g.fresh("gi")
+        g.ops.append({"op": "group_info", "who": w, "id": gi, "ext_commit": True, "tree_ext": True})
+        xc = g.fresh("xc")
+        g.ops.append({"op": "ext_commit", "who": mover, "gi": gi, "id": xc, "remove_self": True})
+        for m in g.in_group:
+            if m != mover:
+                g.ops.append({"op": "deliver", "to": m, "msg": xc})
+        g.epoch += 1
+        g.ops.append({"op": "observe", "who": w, "observe": "all"})
+        g.round_explicit(rng.choice(g.in_group), n_adds=0, remove_names=[])
         scripts.append(g.script())
     recs = run_scripts(scripts, timeout=2400)
     failing = []
@@ -192,7 +194,12 @@ def main(run, args):
             for c, v in zip(shards[si], nums):
                 coq_cases += 1
                 if v != 0:
-                    mism.append(dict(c[1], what="the positions at which the member holds private keys differ from the model" if v == 1 else "private-key model fails on this commit", code=v))
+                    if v == 1:
+                        # the model computes the entitled set (proved sound and complete): a member whose keys
+                        # sit at other positions holds a key it is not entitled to or lacks one it is entitled to
+                        failing.append(dict(c[1], what="the member does not hold exactly the private keys it is entitled to (positions differ from the entitled set computed by the model)", code=v))
+                    else:
+                        mism.append(dict(c[1], what="private-key model fails on this commit", code=v))
     run.obligation("correspondence: key positions of every member after every commit = model; every stored key opens what is sealed to its node", not mism and not failing and coq_cases > 0)
     if stats["receivers"] < 50 or stats["joiners"] < 10 or stats["own_updates"] < 3 or stats["keys_dropped"] < 3:
         broken.append(("generator", f"degenerate histories: {stats}"))
